@@ -17,7 +17,7 @@ theorem mkV_bits_of_ty {v : Val} {t : VT} (h : vtOf v = t) : mkV t v.bits = v :=
 theorem MSt.get_set_other (σ : MSt) (s s' : Slot) (v : Val) (h : s' ≠ s) : (σ.set s v).get s' = σ.get s' := by
   simp [MSt.get, MSt.set, h]
 
-@[simp] theorem MSt.set_locals (σ : MSt) (s : Slot) (v : Val) : (σ.set s v).locals = σ.locals := rfl
+@[simp] theorem MSt.set_locals (σ : MSt) (s : Slot) (v : Val) : (σ.set s v).store = σ.store := rfl
 
 theorem vtOf_get (σ : MSt) (s : Slot) : vtOf (σ.get s) = s.ty := vtOf_mkV _ _
 
@@ -33,7 +33,7 @@ theorem SlotsBelow.set {b : Nat} (σ : MSt) (s : Slot) (v : Val) (h : b ≤ s.id
   intro s' hs'
   have : s' ≠ s := by intro e; subst e; omega
   simp [MSt.set, this]
-theorem SlotsBelow.locals {b : Nat} (σ : MSt) (l : List Val) : SlotsBelow b σ { σ with locals := l } := fun _ _ => rfl
+theorem SlotsBelow.locals {b : Nat} (σ : MSt) (l : Store) : SlotsBelow b σ { σ with store := l } := fun _ _ => rfl
 theorem SlotsBelow.get {b : Nat} {σ σ' : MSt} (h : SlotsBelow b σ σ') (s : Slot) (hs : s.idx < b) : σ'.get s = σ.get s := by
   simp [MSt.get, h s hs]
 
